@@ -41,6 +41,8 @@ type entity struct {
 	profile  *Profile
 	json     bool   // write as .json instead of .yaml
 	artifact []byte // pre-existing artifact file (an imported issuer): the entity itself is not generated and yields no case
+	keyfile  []byte // pre-existing artifact file that holds only a private key: the certificate is generated for that key
+	keyPoint []byte // the public point of that key (04 || X || Y, fixed width), computed by the harness
 }
 
 // a dotted object identifier with an arc of at least 2^31 (ten digits and more; 2147483648 is the smallest)
@@ -301,6 +303,9 @@ func runHierarchy(tag string, ents []entity, profiles []*Profile) int {
 		if e.artifact != nil {
 			m[e.name+".pem"] = &fstest.MapFile{Data: e.artifact, Mode: 0644, ModTime: t0.Add(time.Minute)}
 		}
+		if e.keyfile != nil && !apiMode {
+			m[e.name+".pem"] = &fstest.MapFile{Data: e.keyfile, Mode: 0644, ModTime: t0.Add(time.Minute)}
+		}
 	}
 	status := "ok"
 	func() {
@@ -525,6 +530,9 @@ func knownFindingChecks(tag string, e entity, o *observed) {
 // checks made with the standard library only
 func selfChecks(tag string, e entity, issuer *entity, o *observed, obs map[string]*observed) {
 	knownFindingChecks(tag, e, o)
+	if e.keyPoint != nil && e.cfg.Manip.Pk == "" && !bytes.Equal(o.spkiBits, e.keyPoint) {
+		fmt.Fprintf(out, "SELFFAIL %s %s: the certificate does not carry the public key of the private key that was supplied (%d octets, expected %d: 04 || X || Y with both coordinates at full width)\n", tag, e.name, len(o.spkiBits), len(e.keyPoint))
+	}
 	if e.cfg.Manip.Pk != "" || e.cfg.Manip.PkAlg != "" {
 		// the certified key is deliberately not the entity's key
 	} else if _, err := pubFromBits(e.cfg.KeyAlg, o.spkiBits); err != nil {
